@@ -117,6 +117,9 @@ func init() {
 			ruleBlockFilters(c, r, "")
 			ruleFilterWriterDict(c, r, "")
 			ruleEncoderDictArgs(c, r, "")
+			// the reading side of the size byte: the filter properties are one raw byte each (size, code),
+			// codes above 40 are rejected (container check catalogue of the xz reader)
+			ruleXZReaderChecks(c, r, "rd:")
 			r.Floor("CE-DICT-DEC", 1)
 			r.Floor("CE-DICT-ENC", 1)
 			r.Floor("CE-FILTER", 2)
